@@ -1,4 +1,4 @@
-CONSTANT Gaps = {0, 1000}
+CONSTANT Gaps = {1000}
 SPECIFICATION MCSpec
 INVARIANT ReportIsArgminBand
 INVARIANT BestFirst
